@@ -35,7 +35,7 @@ KINDS: list[tuple[str, str, dict[str, Any]]] = [
     ("switch(reset_after=5,state address)", "sw", {"reset_after": 5, "group_address_state": "1/1/2"}),
     ("binary_sensor(reset_after=5,invert,ignore_internal_state)", "bs", {"reset_after": 5, "invert": True, "ignore_internal_state": True}),
 ]
-EVENTS = ["on", "off", "none", "on-response", "user-on", "link-down", "link-up", "on-state", "off-state"]
+EVENTS = ["on", "off", "none", "on-response", "user-on", "link-down", "link-up", "on-state", "off-state", "re-register"]
 
 
 class LoopClock:
@@ -51,7 +51,10 @@ def events_for(kind: int) -> list[int]:
     # (connection loss / return is reported to the task registry; timers of these devices do not depend on it)
     if cls == "sw":
         return [0, 1, 2, 4, 5, 6] + ([7, 8] if "group_address_state" in KINDS[kind][2] else [])
-    return [0, 1, 2, 3, 5, 6] if "context_timeout" not in KINDS[kind][2] else [0, 1, 2, 5, 6]
+    if "context_timeout" not in KINDS[kind][2]:
+        return [0, 1, 2, 3, 5, 6]
+    # (a device taken out of the registry and put back loses its pending timers: only offered where no reset timer is configured)
+    return [0, 1, 2, 5, 6] + ([9] if "reset_after" not in KINDS[kind][2] else [])
 
 
 STATES: set[Any] = set()
@@ -106,8 +109,13 @@ def run_case(kind: int, seq: tuple[tuple[int, int], ...]) -> list[tuple[str, str
                     state = False
                     deadline = None
 
+            ctx_counts = {True: 0, False: 0}   # telegrams per state in the current context (the library's own reset counts as an 'off')
+
             def ctx_event(t: F, s: bool | None) -> None:
                 nonlocal run_state, run_count, mixed, last_t
+                if last_t is None or t - last_t >= CTX:
+                    ctx_counts[True] = ctx_counts[False] = 0
+                ctx_counts[bool(s)] += 1
                 if last_t is None or t - last_t >= CTX:
                     # (a reset falling on the very instant a context ends may run before the context callback and restart it: tie, unconstrained)
                     if last_t is not None and not mixed and run_state is not None and not (s is None and t - last_t == CTX):
@@ -124,6 +132,8 @@ def run_case(kind: int, seq: tuple[tuple[int, int], ...]) -> list[tuple[str, str
                 STATES.add((kind, got, getattr(dev, "counter", None), w.loop.timer_profile()))
                 if got != state:
                     viols.append((f"state-differs:{'reset' if has_reset else 'plain'}", f"{tag}: device reports {got}, reference {state} (deadline {deadline}); {label} trace={trace}"))
+                if has_ctx and last_t is not None and now < last_t + CTX and got is not None and dev.counter is not None and dev.counter > ctx_counts[bool(got)]:
+                    viols.append(("counter-exceeds-telegrams-of-the-context", f"{tag}: counter {dev.counter} for state {got}, but the current context holds only {ctx_counts[bool(got)]} such telegram(s); {label} trace={trace}"))
                 if has_ctx and last_t is not None and not mixed and now < last_t + CTX:
                     if dev.counter != run_count:
                         viols.append(("counter-differs", f"{tag}: counter {dev.counter}, reference {run_count} same-state telegrams within the timeout of each other; {label} trace={trace}"))
@@ -137,6 +147,13 @@ def run_case(kind: int, seq: tuple[tuple[int, int], ...]) -> list[tuple[str, str
                 ev = EVENTS[ei]
                 trace.append(f"+{float(ADV[ai])}s {ev}")
                 if ev == "none":
+                    continue
+                if ev == "re-register":
+                    w.xknx.devices.async_remove(dev)
+                    w.xknx.devices.async_add(dev)
+                    w.loop.settle()
+                    if last_t is not None:
+                        mixed = True   # the pending end-of-context callback went with the device's tasks: this context is no longer judged exactly
                     continue
                 if ev in ("link-down", "link-up"):
                     (w.disconnect if ev == "link-down" else w.connect)()
@@ -218,6 +235,14 @@ def cases(depth: int) -> list[tuple[int, tuple[tuple[int, int], ...]]]:
                 if seq[0][0] != 0 or seq[0][1] == 2 or seq[-1][1] == 2 and seq[-1][0] == 0:
                     continue
                 out.append((k, seq))
+    # longer histories on a coarser alphabet for the press counters: on / off / re-register x advance 1/2, exactly the timeout, 5/2
+    for k in range(len(KINDS)):
+        if "context_timeout" not in KINDS[k][2]:
+            continue
+        evs = [(a, e) for a in (1, 3, 4) for e in events_for(k) if e in (0, 1, 9)]
+        for n in range(depth + 1, depth + 3):
+            for seq in itertools.product(evs, repeat=n):
+                out.append((k, ((0, seq[0][1]),) + seq[1:]))
     return out
 
 
@@ -250,6 +275,7 @@ def worker(k: int, n: int, depth: int) -> Part:
     return part
 
 
+# (cases(): full alphabet to `depth`, then the press-counter kinds to depth+2 over a coarse alphabet)
 def run(ctx: Ctx) -> None:
     depth = 4 if ctx.thorough else 3
     ctx.rule = (
